@@ -49,6 +49,7 @@ var generators = map[string]func(rec *lib.Rec, r *lib.Rng, thorough bool){
 	"C02": genC02,
 	"C03": genC03,
 	"C17": genC17,
+	"C18": genC18,
 	"GEN": func(rec *lib.Rec, r *lib.Rng, thorough bool) {
 		genTranslatorStream(rec, r, map[bool]int{false: 2000, true: 100000}[thorough], nil)
 	},
